@@ -1,5 +1,202 @@
 import OasisModel.Proto
-/- C09 signature contexts, nonces: driver stub (not built yet). -/
+import OasisModel.Auth.SigCtx
+import OasisModel.Auth.Nonce
+import Generated.SigContexts
+/-
+Driver for mode `auth` (property C09), a checker with witness: every line carries the operation and what
+the Go implementation answered; the model answers `ok`, `DIVERGE <detail>` (model and implementation
+disagree) or `SPEC <detail>` (the implementation's own outputs violate an executable clause of the
+property, independently of the model state).
+
+Signature contexts (registry of go/common/crypto/signature, read through the verif hook):
+  reg <rawhex> <chain 0|1> <dynhex|-> <maxlen>          one runtime-registered context: must be in the
+                                                         regenerated table (closed entries)
+  regdone                                                every closed table entry must have been seen
+  newctx <rawhex> <chain> <dynhex|-> <maxlen> <ok|panic> real NewContext on a fresh string
+  prep <rawhex> <chain> <dynhex|-> <maxlen> <suffixhex|none> <chainhex|-> <hex | err:<class>>
+                                                         real [WithSuffix +] PrepareSignerContext
+Sequencing (real AuthenticateAndPayFees / transaction pipeline on the staking state):
+  params <minTransactBalance> <maxTxSize> <localMinGasPrice> <ownSigner|-> <reserved ids|->
+  acct <signer> <nonce> <balance>
+  newblock | restart | noop
+  setbal <signer> <balance>
+  auth <d|c|s> <signer> <nonce> <feeAmt> <feeGas> <ok|auth:…> <nonceBefore> <nonceAfter> <balBefore> <balAfter> <feeAcc>
+  tx <idhex> <size> <env> <sig> <txok> <signer> <nonce> <feeAmt> <feeGas> <n|c|s|u> <handlerOk 0|1>
+     <class> <nonceBefore> <nonceAfter> <balBefore> <balAfter>
+After a DIVERGE/SPEC every later line is answered `skip`.
+-/
 namespace OasisModel.Auth.Driver
-def main : IO Unit := IO.eprintln "mode not implemented"
+open OasisModel.Proto OasisModel.Auth
+
+def genTable : List Ctx := Generated.SigContexts.table.map ofGen
+
+structure St where
+  seen : List Ctx := []
+  registered : List Bytes := []
+  p : Params := { minTransactBalance := 0, maxTxSize := 0 }
+  s : State := { acct := fun _ => ⟨0, 0⟩, feeAcc := 0, authed := [], effects := [] }
+  decTab : List (Bytes × Decoded) := []
+  implAuthed : List Bytes := []
+  implNonce : List (Nat × Nat) := []   -- last nonce the implementation reported per signer
+  dead : Bool := false
+
+def hexBytes (s : String) : Option Bytes := (parseHex s).map (·.map UInt8.toNat)
+def showBytes (b : Bytes) : String := showHex (b.map UInt8.ofNat)
+
+def bit (s : String) : Option Bool :=
+  if s == "1" then some true else if s == "0" then some false else none
+
+def parseCtx (raw chain dyn maxlen : String) : Option Ctx := do
+  let r ← hexBytes raw
+  let c ← bit chain
+  let n ← maxlen.toNat?
+  if dyn == "-" then pure { raw := r, chain := c, dyn := none }
+  else
+    let d ← hexBytes dyn
+    pure { raw := r, chain := c, dyn := some (d, n) }
+
+def sameReg (a b : Ctx) : Bool := a.raw == b.raw && a.chain == b.chain && a.dyn == b.dyn
+
+def parseKind (s : String) : Option MethodKind :=
+  match s with
+  | "n" => some .normal | "c" => some .critical | "s" => some .system | "u" => some .unknown
+  | _ => none
+
+def parseMode (s : String) : Option Mode :=
+  match s with
+  | "d" => some .deliver | "c" => some .check | "s" => some .simulate | _ => none
+
+def lookupNonce (l : List (Nat × Nat)) (a : Nat) : Option Nat := (l.find? (·.1 == a)).map (·.2)
+def setNonce (l : List (Nat × Nat)) (a n : Nat) : List (Nat × Nat) := (a, n) :: l.filter (·.1 != a)
+
+def step (st : St) (line : String) : St × String :=
+  if st.dead then (st, "skip") else
+  let diverge (msg : String) : St × String := ({ st with dead := true }, "DIVERGE " ++ msg)
+  let spec (msg : String) : St × String := ({ st with dead := true }, "SPEC " ++ msg)
+  match words line with
+  | [] => (st, "ok")
+  | ["reg", raw, chain, dyn, maxlen] =>
+    match parseCtx raw chain dyn maxlen with
+    | none => diverge "bad-op"
+    | some c =>
+      if genTable.any (fun g => g.closed && sameReg g c) then ({ st with seen := c :: st.seen }, "ok")
+      else diverge s!"runtime-registered context not in the regenerated table: {raw} chain={chain} dyn={dyn}/{maxlen}"
+  | ["regdone"] =>
+    match genTable.find? (fun g => g.closed && !st.seen.any (sameReg g)) with
+    | some g => diverge s!"table entry not registered at run time: {showBytes g.raw}"
+    | none => (st, "ok")
+  | ["newctx", raw, chain, dyn, maxlen, res] =>
+    match parseCtx raw chain dyn maxlen with
+    | none => diverge "bad-op"
+    | some c =>
+      let known := st.registered.contains c.raw || st.seen.any (fun g => g.raw == c.raw)
+      let m := if newContextOk c && !known then "ok" else "panic"
+      if m != res then diverge s!"NewContext model={m} impl={res} raw={raw}"
+      else ({ st with registered := if m == "ok" then c.raw :: st.registered else st.registered }, "ok")
+  | ["prep", raw, chain, dyn, maxlen, suffix, chainId, res] =>
+    match parseCtx raw chain dyn maxlen, (if suffix == "none" then some none else (hexBytes suffix).map some),
+          hexBytes chainId with
+    | some c, some sfx, some k =>
+      let m := match prepare c sfx k with
+        | .ok b => showBytes b
+        | .error e => "err:" ++ e.toString
+      if m != res then diverge s!"PrepareSignerContext model={m} impl={res}"
+      else
+        -- executable clause: the result is head ++ tail (what the theorems are about)
+        match prepare c sfx k with
+        | .ok b => if b == effective c (sfx.getD []) k then (st, "ok") else spec "prepare ≠ effective"
+        | .error _ => (st, "ok")
+    | _, _, _ => diverge "bad-op"
+  | ["params", mtb, mts, lmgp, own, res] =>
+    match mtb.toNat?, mts.toNat?, lmgp.toNat?, parseNats res with
+    | some a, some b, some c, some r =>
+      let own' := if own == "-" then none else own.toNat?
+      ({ st with p := { minTransactBalance := a, maxTxSize := b, localMinGasPrice := c, ownSigner := own',
+                        reserved := fun x => r.contains x } }, "ok")
+    | _, _, _, _ => diverge "bad-op"
+  | ["acct", a, n, b] =>
+    match a.toNat?, n.toNat?, b.toNat? with
+    | some a, some n, some b =>
+      ({ st with s := { st.s with acct := setAcct st.s.acct a ⟨n, b⟩ }, implNonce := setNonce st.implNonce a n }, "ok")
+    | _, _, _ => diverge "bad-op"
+  | ["newblock"] => ({ st with s := OasisModel.Auth.step st.p (fun _ => default) st.s .newBlock }, "ok")
+  | ["restart"] => ({ st with s := OasisModel.Auth.step st.p (fun _ => default) st.s .restart }, "ok")
+  | ["noop"] => (st, "ok")
+  | ["setbal", a, v] =>
+    match a.toNat?, v.toNat? with
+    | some a, some v => ({ st with s := OasisModel.Auth.step st.p (fun _ => default) st.s (.setBalance a v) }, "ok")
+    | _, _ => diverge "bad-op"
+  | ["auth", mode, a, n, fa, fg, res, nb, na, bb, ba, facc] =>
+    match parseMode mode, a.toNat?, n.toNat?, fa.toNat?, fg.toNat?, nb.toNat?, na.toNat?, bb.toNat?, ba.toNat?,
+          facc.toNat? with
+    | some m, some a, some n, some fa, some fg, some nb, some na, some bb, some ba, some facc =>
+      if res == "PANIC" then diverge "implementation panicked in AuthenticateAndPayFees" else
+      let acc := st.s.acct a
+      if acc.nonce != nb || acc.balance != bb then
+        diverge s!"account {a} before auth: model nonce={acc.nonce} balance={acc.balance} impl nonce={nb} balance={bb}"
+      else
+      -- executable clauses on the implementation's outputs alone
+      if m == .deliver && res == "ok" && n != nb then spec s!"authenticated with nonce {n} ≠ account nonce {nb}"
+      else if m == .deliver && res == "ok" && na != (nb + 1) % nonceMod then spec s!"nonce after authentication {na}, before {nb}"
+      else if (m != .deliver || res != "ok") && (na != nb || ba != bb) then
+        spec s!"rejected/check/simulate call changed the account: nonce {nb}->{na} balance {bb}->{ba}"
+      else
+      match authenticate st.p m st.s.acct st.s.feeAcc a n fa fg with
+      | .error e =>
+        if res != "auth:" ++ e.toString then diverge s!"auth result model=auth:{e.toString} impl={res}"
+        else (st, "ok")
+      | .ok (acct', fee') =>
+        if res != "ok" then diverge s!"auth result model=ok impl={res}"
+        else if (acct' a).nonce != na || (acct' a).balance != ba then
+          diverge s!"after auth: model nonce={(acct' a).nonce} balance={(acct' a).balance} impl nonce={na} balance={ba}"
+        else if fee' != facc then diverge s!"fee accumulator model={fee'} impl={facc}"
+        else ({ st with s := { st.s with acct := acct', feeAcc := fee' }, implNonce := setNonce st.implNonce a na }, "ok")
+    | _, _, _, _, _, _, _, _, _, _ => diverge "bad-op"
+  | ["tx", id, size, env, sg, txok, a, n, fa, fg, kind, ho, cls, nb, na, bb, ba] =>
+    match hexBytes id, size.toNat?, bit env, bit sg, bit txok, a.toNat?, n.toNat?, fa.toNat?, fg.toNat? with
+    | some id, some size, some env, some sg, some txok, some a, some n, some fa, some fg =>
+      match parseKind kind, bit ho, nb.toNat?, na.toNat?, bb.toNat?, ba.toNat? with
+      | some kind, some ho, some nb, some na, some bb, some ba =>
+        if cls == "PANIC" then diverge "implementation panicked in the transaction pipeline" else
+        let d : Decoded := { size := size, envOk := env, sigOk := sg, txOk := txok, signer := a, nonce := n,
+                             feeAmt := fa, feeGas := fg, kind := kind }
+        -- decoding is a function of the bytes
+        match st.decTab.find? (·.1 == id) with
+        | some (_, d') =>
+          if d' != d then diverge s!"same bytes {showBytes id} decoded differently" else go st id d ho cls nb na bb ba
+        | none => go { st with decTab := (id, d) :: st.decTab } id d ho cls nb na bb ba
+      | _, _, _, _, _, _ => diverge "bad-op"
+    | _, _, _, _, _, _, _, _, _ => diverge "bad-op"
+  | _ => diverge "bad-op"
+where
+  go (st : St) (id : Bytes) (d : Decoded) (ho : Bool) (cls : String) (nb na bb ba : Nat) : St × String :=
+    let diverge (msg : String) : St × String := ({ st with dead := true }, "DIVERGE " ++ msg)
+    let spec (msg : String) : St × String := ({ st with dead := true }, "SPEC " ++ msg)
+    let implAuth := cls == "ok" || cls == "failed"
+    let a := d.signer
+    -- executable clauses of the property on the implementation's outputs alone
+    if implAuth && !(d.envOk && d.sigOk && d.txOk) then
+      spec s!"authenticated without valid envelope/signature (env={d.envOk} sig={d.sigOk} tx={d.txOk})"
+    else if implAuth && d.nonce != nb then spec s!"authenticated with nonce {d.nonce} ≠ account nonce {nb}"
+    else if implAuth && na != (nb + 1) % nonceMod then spec s!"nonce after authenticated tx {na}, before {nb}"
+    else if !implAuth && d.envOk && (na != nb || ba != bb) then
+      spec s!"rejected tx changed the account: nonce {nb}->{na} balance {bb}->{ba}"
+    else if implAuth && st.implAuthed.contains id then spec s!"same bytes authenticated twice: {showBytes id}"
+    else if d.envOk && (lookupNonce st.implNonce a).any (· != nb) then
+      spec s!"nonce of signer {a} changed between transactions: {lookupNonce st.implNonce a} -> {nb}"
+    else
+    let acc := st.s.acct a
+    if d.envOk && (acc.nonce != nb || acc.balance != bb) then
+      diverge s!"account {a} before tx: model nonce={acc.nonce} balance={acc.balance} impl nonce={nb} balance={bb}"
+    else
+    let (s', r) := deliver st.p (fun _ => d) st.s id ho
+    if r.toString != cls then diverge s!"class model={r.toString} impl={cls}"
+    else if d.envOk && ((s'.acct a).nonce != na || (s'.acct a).balance != ba) then
+      diverge s!"after tx: model nonce={(s'.acct a).nonce} balance={(s'.acct a).balance} impl nonce={na} balance={ba}"
+    else
+      ({ st with s := s', implAuthed := if implAuth then id :: st.implAuthed else st.implAuthed,
+                 implNonce := if d.envOk then setNonce st.implNonce a na else st.implNonce }, "ok")
+
+def main : IO Unit := loop step {}
+
 end OasisModel.Auth.Driver
